@@ -137,6 +137,77 @@ def step_obligations(pid, tier, seed, check, mutating_only=False):
     return {'obligations': obs, 'bounds': bounds}
 
 
+# ---------------------------------------------------------------------------
+# C02: range searches, minKey/maxKey, lazy sequences
+
+def tree_shapes(tier, seed, kinds=('BTree', 'TreeSet'), quick_extra=(8, 3), maxranks_quick=None, sizes=None):
+    """-> list of (kind, tag, tpl, hist, L, I), bounds"""
+    out = []
+    bounds = {}
+    for kind, qe in zip(kinds, quick_extra):
+        sh, st = pick_shapes(tier, seed, 2, 2, 'OO', kind, quick_extra=qe)
+        bounds['shapes_' + kind] = st
+        for tag, tpl, hist in sh:
+            if tier == 'quick' and maxranks_quick and shapes.n_ranks(tpl) > maxranks_quick and tag != 'core':
+                continue
+            out.append((kind, tag, tpl, hist, 2, 2))
+    if tier != 'quick':
+        for (L, I) in (sizes or [(3, 2), (2, 3)]):
+            for kind in kinds:
+                c, st = cat('OO', 'c', kind, 6, L, I)
+                bounds['shapes_%s_%d_%d' % (kind, L, I)] = st
+                for tpl in sorted(c, key=repr):
+                    out.append((kind, 'all%d%d' % (L, I), tpl, c[tpl], L, I))
+    return out, bounds
+
+
+def range_obligations(pid, tier, seed):
+    obs = []
+    timeout = 120 if tier == 'quick' else 900
+    sh, bounds = tree_shapes(tier, seed, quick_extra=(4, 2))
+    RARGS = [('lo', 'int'), ('hi', 'int'), ('lom', 'int'), ('him', 'int'), ('exmin', 'bool'), ('exmax', 'bool')]
+    RPRE = ['0 <= lom < 3', '0 <= him < 3']
+    for impl in ('c', 'py'):
+        for kind, tag, tpl, hist, L, I in sh:
+            m = shapes.n_ranks(tpl)
+            P = dict(family='OO', impl=impl, kind=kind, tpl=tpl, L=L, I=I, prov='loaded')
+            base = '%s/%s/%s/%s%s/%s' % (pid, impl, kind, tag, '' if (L, I) == (2, 2) else '', sid(tpl))
+            obs.append(dict(id=base + '/range', mod='h_range', fn='range_step', nk=m, args=RARGS, pre=RPRE,
+                            params=P, timeout=timeout))
+            obs.append(dict(id=base + '/minmax', mod='h_range', fn='minmax_step', nk=m,
+                            args=[('lo', 'int'), ('bm', 'int'), ('which', 'int')],
+                            pre=['0 <= bm < 3', '0 <= which < 2'], params=P, timeout=timeout))
+            if tag == 'core' or tier != 'quick':
+                obs.append(dict(id=base + '/seq', mod='h_range', fn='seq_step', nk=m,
+                                args=[('lo', 'int'), ('hi', 'int'), ('lom', 'int'), ('him', 'int'),
+                                      ('exmin', 'bool'), ('exmax', 'bool')],
+                                pre=['0 <= lom < 2', '0 <= him < 2'], params=P, timeout=timeout))
+            # None stored as the smallest key
+            if (tag == 'core' and m <= 4) or (tier != 'quick' and tag == 'core'):
+                obs.append(dict(id=base + '/range_none0', mod='h_range', fn='range_step', nk=m,
+                                args=RARGS + [('none0', 'bool')], pre=RPRE, params=P, timeout=timeout))
+                obs.append(dict(id=base + '/minmax_none0', mod='h_range', fn='minmax_step', nk=m,
+                                args=[('lo', 'int'), ('bm', 'int'), ('which', 'int'), ('none0', 'bool')],
+                                pre=['0 <= bm < 3', '0 <= which < 2'], params=P, timeout=timeout))
+            # grown provenance for the core shapes: the pre-state is produced by the public API
+            if tag == 'core' and hist is not None and (tier != 'quick' or (m <= 5 and 'single' not in tag)):
+                N = (max(k for _, k in hist) + 1) if hist else 0
+                Pg = dict(P, prov='grown', hist=hist)
+                obs.append(dict(id=base + '/range_grown', mod='h_range', fn='range_step', nk=N, args=RARGS, pre=RPRE,
+                                params=Pg, timeout=timeout))
+        for kind in ('Bucket', 'Set'):
+            for n in ((0, 1, 3) if tier == 'quick' else (0, 1, 2, 3, 4, 5)):
+                P = dict(family='OO', impl=impl, kind=kind, n=n)
+                base = '%s/%s/%s/n%d' % (pid, impl, kind, n)
+                obs.append(dict(id=base + '/range', mod='h_range', fn='range_step', nk=n,
+                                args=RARGS + [('none0', 'bool')], pre=RPRE, params=P, timeout=timeout))
+                obs.append(dict(id=base + '/minmax', mod='h_range', fn='minmax_step', nk=n,
+                                args=[('lo', 'int'), ('bm', 'int'), ('which', 'int'), ('none0', 'bool')],
+                                pre=['0 <= bm < 3', '0 <= which < 2'], params=P, timeout=timeout))
+    bounds.update(per_condition_timeout_s=timeout, index_range='every i, j in [-n-2, n+1] and open slice ends, all ordered pairs of consecutive accesses')
+    return {'obligations': obs, 'bounds': bounds}
+
+
 COMMON_ASSUME = [
     'key objects are observed by the containers only through rich comparison, identity and None-ness '
     '(true for the object-key templates; native-key families are covered by their own obligations where stated)',
@@ -169,6 +240,22 @@ PROPS = {
         functions=['_OOBTree.so: _BTree_set, BTree_grow, BTree_split, BTree_split_root, _BTree_clear, bucket_split, '
                    'BTree_deleteNextBucket, BTree_check_inner', 'BTrees._base._Tree._set/_del/_grow/_split/_split_root/_check',
                    'BTrees.check.Checker'],
+        assumptions=COMMON_ASSUME,
+    ),
+    'C02': dict(
+        families=['OO'],
+        gen=lambda tier, seed: range_obligations('C02', tier, seed),
+        explanation='Each obligation symbolically executes the range queries keys/values/items/iterkeys/itervalues/iteritems '
+                    '(keyword and positional form) with solver-chosen bounds (omitted, None, or a symbolic key: present, in a '
+                    'gap, below or above everything), solver-chosen exclusion flags, minKey/maxKey with a symbolic bound, and '
+                    'the lazy sequences (len, every index in [-n-2, n+1] in every order of two consecutive accesses, every '
+                    'step-1 slice) on the real compiled and pure-Python containers from a reachable pre-state with strictly '
+                    'ordered symbolic keys (thinned trees, single-child roots, stale separators, one-key first/last leaves '
+                    'are in the stratified core), and asserts equality with the model slice. CrossHair exhausts the path tree.',
+        functions=['_OOBTree.so: BTree_rangeSearch, BTree_findRangeEnd, BTree_maxminKey, Bucket_findRangeEnd, '
+                   'Bucket_rangeSearch, Bucket_maxminKey, BTreeItems_seek/_item/_slice/_length, BTreeIter_next, buildBTreeIter, '
+                   'PreviousBucket', 'BTrees._base: _Tree.keys/values/items/iter*/minKey/maxKey/_findbucket, _TreeItems, '
+                   '_BucketBase._range/minKey/maxKey, Bucket.keys/values/items/iter*'],
         assumptions=COMMON_ASSUME,
     ),
 }
